@@ -15,6 +15,7 @@
 #include "uncrustify_version.h"
 
 #include <fstream>
+#include <limits>
 #include <unordered_map>
 
 #include <cctype>                    // to get std::tolower
@@ -584,6 +585,15 @@ bool read_number(const char *in, Option<T> &out)
 
    char       *c;
    const auto val = std::strtol(in, &c, 10);
+
+   if (  *c == 0
+      && (  val < static_cast<long>(std::numeric_limits<T>::min())
+         || val > static_cast<long>(std::numeric_limits<T>::max())))
+   {
+      // the number does not fit into the option's type
+      out.warnUnexpectedValue(in);
+      return(false);
+   }
 
    if (  *c == 0
       && out.validate(val))
